@@ -17,7 +17,7 @@ var (
 	c04Left  = []string{"LEFT JOIN", "LEFT HASH_JOIN", "PARALLEL LEFT JOIN", "PARALLEL LEFT HASH_JOIN"}
 	c04Right = []string{"RIGHT JOIN", "RIGHT HASH_JOIN", "PARALLEL RIGHT JOIN", "PARALLEL RIGHT HASH_JOIN"}
 	c04Floor = []string{"type.inner", "type.left", "type.right", "on.equi", "on.nonequi", "on.or", "on.multi", "on.flipped", "keys.str", "keys.num", "dupkeys",
-		"left.empty", "right.empty", "unmatched.left", "unmatched.right", "meta.permute", "meta.flip", "keys.mixed-kind", "alias.prefix", "keys.nested-path", "keys.many", "keys.native", "operands.swapped", "on.between", "on.not", "keys.nonword"}
+		"left.empty", "right.empty", "unmatched.left", "unmatched.right", "meta.permute", "meta.flip", "keys.mixed-kind", "alias.prefix", "keys.nested-path", "keys.many", "keys.native", "operands.swapped", "on.between", "on.not", "keys.nonword", "keys.huge"}
 )
 
 func init() {
@@ -64,6 +64,11 @@ func c04Tables(c *fw.Case, forceEmpty string, mixed bool, many ...bool) (*gen.Ta
 		nums = []any{9.0, 10.0, 3.0, 25.0, 1.5, -1.0, 100.0}
 	}
 	nums = nums[:2+c.Intn(len(nums)-1)]
+	if !mixed && (len(many) == 0 || !many[0]) && c.Chance(0.06) {
+		// whole numbers from 2^63 on (unsigned 64-bit ids as JSON decodes them): different keys
+		nums = []any{9223372036854775808.0, 9223372036854777856.0, 18446744073709551616.0, 1e19, 1e20, 12345678901234567890.0}[:2+c.Intn(5)]
+		c.Feature("keys.huge")
+	}
 	minRows := 0
 	if len(many) > 0 && many[0] {
 		// many distinct keys: more key groups than any batch or worker count
